@@ -16,7 +16,7 @@ def main():
     symbols = [s for s, u in T["usym"]]; psyms = [s for s, p in T["psym"]]; names = [n for n, u in T["uname"]]
     # ---------------- structured inputs (term lists) for the kernel-checked comparison with the model
     lexable = lambda s: s and all(ch == "1" or (ch.isalpha() and (ch.isascii() or ch in "Å" or "Α" <= ch <= "ω" or "ₐ" <= ch <= "ₜ")) or ch in ".°-()☉" for ch in s)
-    pool = [s for s in symbols if lexable(s)] + [p + s for p in psyms for s in rng.sample(symbols, 6) if lexable(p + s)] + [n for n in names if lexable(n)] + ["zz", "qx", "kzz", "Mq", "foo", "mmm", "kk"]
+    pool = [s for s in T.get("non_units", []) if lexable(s)] + [s for s in symbols if lexable(s)] + [p + s for p in psyms for s in rng.sample(symbols, 6) if lexable(p + s)] + [n for n in names if lexable(n)] + ["zz", "qx", "kzz", "Mq", "foo", "mmm", "kk"]
     structured = []
     for _ in range(600 if quick else 8000):
         k = rng.choice([1, 1, 2, 3]); num = [(rng.choice(pool), rng.choice([1, 1, 2, -1, 3, -2, 0, 12])) for _ in range(k)]
@@ -35,6 +35,7 @@ def main():
     for u in ("m", "km/s", "KiB", "Hz", "kg m^2"):      # the same amount in both numeric spellings, in both orders
         for a, b in (("7", "7.0"), ("12.0", "12"), ("0", "-0.0"), ("1000", "1e3"), ("5", "5e0"), ("3.0", "3")):
             free += [f"{a} {u}", f"{b} {u}"]
+    free += [x for s_ in T.get("non_units", []) for x in (s_, f"5 {s_}", f"m/{s_}", f"{s_}²")]
     free += ["km zeebles", "Mm kg $", "5 mA zeebles", "mA/zeebles", "kHz⋅zz", "μs ms ns qq", "5 km/", "km ^2", "kHz MHz GHz THz zz"]     # a prefixed unit resolved before the input is rejected
     alphabet = "mskgKAΩμ°.-()15 ^*/⋅²⁻¹eE+\t\n" + "".join(chr(rng.randrange(32, 0x3000)) for _ in range(40)) + "\u0000퟿\U0001F600"
     for _ in range(500 if quick else 10000):
